@@ -23,6 +23,8 @@
 package main
 
 import (
+	"bufio"
+	"bytes"
 	"context"
 	"crypto/ecdsa"
 	"crypto/elliptic"
@@ -30,8 +32,6 @@ import (
 	"crypto/tls"
 	"crypto/x509"
 	"crypto/x509/pkix"
-	"bufio"
-	"bytes"
 	"errors"
 	"flag"
 	"fmt"
@@ -54,6 +54,12 @@ import (
 	"example.com/scion-time/net/ntp"
 	"example.com/scion-time/net/nts"
 	"example.com/scion-time/net/ntske"
+	"example.com/scion-time/net/scion"
+	"example.com/scion-time/net/udp"
+
+	"github.com/scionproto/scion/pkg/addr"
+	"github.com/scionproto/scion/pkg/snet"
+	spath "github.com/scionproto/scion/pkg/snet/path"
 
 	"verifharness/lib"
 )
@@ -85,10 +91,13 @@ type env struct {
 	seq      uint32
 	log      *slog.Logger
 	front    *keFront
+	ip2      net.IP // the address the SCION client's key exchange and relay live on
+	front2   *keFront
+	downS    *net.UDPConn // relay socket the SCION clients talk to (same port as the real SCION listener, on ip2)
 	stray    atomic.Int64 // datagrams that arrived at the default NTP port instead of the relay
 	srvTLS   *tls.Config
-	aged     time.Duration       // how much older the provider has been made so far
-	keys     map[uint16]keyInfo  // every server key seen as the current one: value and end of validity
+	aged     time.Duration      // how much older the provider has been made so far
+	keys     map[uint16]keyInfo // every server key seen as the current one: value and end of validity
 }
 
 // keyInfo: a key as handed out by provider.Current(); its validity ends at
@@ -141,7 +150,7 @@ func fatal(f string, a ...any) {
 }
 
 func newEnv() *env {
-	e := &env{ip: ownAddr(11), log: slog.New(slog.DiscardHandler), keys: map[uint16]keyInfo{}}
+	e := &env{ip: ownAddr(11), ip2: ownAddr(211), log: slog.New(slog.DiscardHandler), keys: map[uint16]keyInfo{}}
 	timebase.RegisterClock(sysClock{})
 	e.provider = ntske.NewProvider()
 	ctx := context.Background()
@@ -160,7 +169,7 @@ func newEnv() *env {
 		ExtKeyUsage:           []x509.ExtKeyUsage{x509.ExtKeyUsageServerAuth},
 		BasicConstraintsValid: true,
 		IsCA:                  true,
-		IPAddresses:           []net.IP{e.ip},
+		IPAddresses:           []net.IP{e.ip, e.ip2},
 	}
 	der, err := x509.CreateCertificate(rand.Reader, tmpl, tmpl, &priv.PublicKey, priv)
 	if err != nil {
@@ -178,6 +187,8 @@ func newEnv() *env {
 	server.StartSCIONServer(ctx, e.log, "" /* daemon */, &net.UDPAddr{IP: e.ip, Port: scionPort}, 0, e.provider)
 	// the key exchange names the relay's port as the NTP port
 	server.StartNTSKEServerIP(ctx, e.log, e.ip, relayPort, srvTLS, e.provider)
+	// a second NTS-KE server for the SCION clients: it names ip2 and the port of the SCION listener
+	server.StartNTSKEServerIP(ctx, e.log, e.ip2, scionPort, srvTLS, e.provider)
 
 	e.down, err = net.ListenUDP("udp4", &net.UDPAddr{IP: e.ip, Port: relayPort})
 	if err != nil {
@@ -188,21 +199,29 @@ func newEnv() *env {
 		fatal("relay: %v", err)
 	}
 	e.down.SetReadBuffer(1 << 20)
+	e.downS, err = net.ListenUDP("udp4", &net.UDPAddr{IP: e.ip2, Port: scionPort})
+	if err != nil {
+		fatal("relay: %v", err)
+	}
+	e.downS.SetReadBuffer(1 << 20)
 	e.up.SetReadBuffer(1 << 20)
 	e.srvAddr = &net.UDPAddr{IP: e.ip, Port: ntpPort}
-	// wait until the TLS listener accepts
-	for i := 0; ; i++ {
-		c, err := net.DialTimeout("tcp", net.JoinHostPort(e.ip.String(), strconv.Itoa(ntske.ServerPortIP)), time.Second)
-		if err == nil {
-			c.Close()
-			break
+	// wait until the TLS listeners accept
+	for _, ip := range []net.IP{e.ip, e.ip2} {
+		for i := 0; ; i++ {
+			c, err := net.DialTimeout("tcp", net.JoinHostPort(ip.String(), strconv.Itoa(ntske.ServerPortIP)), time.Second)
+			if err == nil {
+				c.Close()
+				break
+			}
+			if i > 100 {
+				fatal("NTS-KE listener not reachable: %v", err)
+			}
+			time.Sleep(50 * time.Millisecond)
 		}
-		if i > 100 {
-			fatal("NTS-KE listener not reachable: %v", err)
-		}
-		time.Sleep(50 * time.Millisecond)
 	}
-	e.front = newKeFront(e)
+	e.front = newKeFront(e, e.ip)
+	e.front2 = newKeFront(e, e.ip2)
 	// the default NTP port of this address: a client that ignores what the key exchange
 	// told it ends up here; it is answered at once with two datagrams it cannot use
 	stray, err := net.ListenUDP("udp4", &net.UDPAddr{IP: e.ip, Port: ntp.ServerPortIP})
@@ -226,23 +245,39 @@ func newEnv() *env {
 
 // one client with its own fetcher
 type cl struct {
-	c        *client.IPClient
-	ke       atomic.Int64 // completed TLS handshakes
-	keFail   atomic.Bool  // scripted: the next handshake is refused by the client
-	local    *net.UDPAddr
-	remote   *net.UDPAddr
+	c       *client.IPClient
+	ke      atomic.Int64 // completed TLS handshakes
+	keFail  atomic.Bool  // scripted: the next handshake is refused by the client
+	local   *net.UDPAddr
+	remote  *net.UDPAddr
+	scion   bool
+	sc      *client.SCIONClient
+	fetcher *ntske.Fetcher
+	front   *keFront
+	sock    *net.UDPConn
 }
 
-func (e *env) newClient() *cl {
-	x := &cl{}
-	x.c = &client.IPClient{Log: e.log, InterleavedMode: false}
-	x.c.Auth.Enabled = true
+func (e *env) newClient(overSCION bool) *cl {
+	x := &cl{scion: overSCION}
+	ip := e.ip
+	if overSCION {
+		// packet authentication (SPAO, DRKey mock keys) and NTS together
+		x.sc = &client.SCIONClient{Log: e.log, InterleavedMode: false}
+		x.sc.Auth.Enabled = true
+		x.sc.Auth.DRKeyFetcher = scion.NewFetcher(nil)
+		x.sc.Auth.NTSEnabled = true
+		x.fetcher, x.front, x.sock, ip = &x.sc.Auth.NTSKEFetcher, e.front2, e.downS, e.ip2
+	} else {
+		x.c = &client.IPClient{Log: e.log, InterleavedMode: false}
+		x.c.Auth.Enabled = true
+		x.fetcher, x.front, x.sock = &x.c.Auth.NTSKEFetcher, e.front, e.down
+	}
 	pool := x509.NewCertPool()
 	pool.AddCert(e.cert)
-	f := &x.c.Auth.NTSKEFetcher
+	f := x.fetcher
 	f.TLSConfig.NextProtos = []string{"ntske/1"}
 	f.TLSConfig.RootCAs = pool
-	f.TLSConfig.ServerName = e.ip.String()
+	f.TLSConfig.ServerName = ip.String()
 	f.TLSConfig.MinVersion = tls.VersionTLS13
 	f.TLSConfig.VerifyConnection = func(tls.ConnectionState) error {
 		if x.keFail.Load() {
@@ -333,6 +368,14 @@ func (e *env) toServer(req []byte) (replies [][]byte) {
 	}
 }
 
+// junk: a datagram the client cannot use (for the SCION client: not a SCION packet)
+func (x *cl) junk() []byte {
+	if x.scion {
+		return make([]byte, 8)
+	}
+	return junk()
+}
+
 func junk() []byte {
 	b := make([]byte, ntp.PacketLen)
 	b[0] = 4<<3 | 4
@@ -361,27 +404,27 @@ type step struct {
 }
 
 type stepObs struct {
-	sent      bool
-	req       []byte
-	reqCT     []byte // ciphertext recomputed for the request
-	reqNonce  []byte
-	openable  bool
-	curKey    int64    // the provider's current key id right after the reply (-1: not asked)
-	forged    [][]byte // cookies of a forged datagram delivered to the client
-	noSend    int      // nothing reached the relay although the fetcher holds data: 1 the short allowance of a timeout step passed first, 2 the server named is not an IP address, 3 unexplained, 4 sent elsewhere
-	forwarded int
-	replies   [][]byte
-	repNonce  []byte
-	repCT     []byte // recomputed
-	repPlain  []byte
-	repAuthOK bool
+	sent       bool
+	req        []byte
+	reqCT      []byte // ciphertext recomputed for the request
+	reqNonce   []byte
+	openable   bool
+	curKey     int64    // the provider's current key id right after the reply (-1: not asked)
+	forged     [][]byte // cookies of a forged datagram delivered to the client
+	noSend     int      // nothing reached the relay although the fetcher holds data: 1 the short allowance of a timeout step passed first, 2 the server named is not an IP address, 3 unexplained, 4 sent elsewhere
+	forwarded  int
+	replies    [][]byte
+	repNonce   []byte
+	repCT      []byte // recomputed
+	repPlain   []byte
+	repAuthOK  bool
 	repCookies []string // per cookie: [bytes keyid getok c2s s2c]
-	delivered []byte
-	intact    bool
-	clientErr bool
-	keDelta   int64
-	poolAfter [][]byte
-	c2s, s2c  []byte
+	delivered  []byte
+	intact     bool
+	clientErr  bool
+	keDelta    int64
+	poolAfter  [][]byte
+	c2s, s2c   []byte
 }
 
 // cookieFacts opens a cookie the way the server does and reports
@@ -408,24 +451,24 @@ func (e *env) runStep(x *cl, st step, old *[][]byte) stepObs {
 		e.provider.VerifAge(time.Duration(st.ageNs))
 		e.aged += time.Duration(st.ageNs)
 	}
-	d0 := x.c.Auth.NTSKEFetcher.VerifData()
+	d0 := x.fetcher.VerifData()
 	stray0 := e.stray.Load()
 	// how a needed key exchange goes
 	x.keFail.Store(false)
-	e.front.mode.Store(0)
+	x.front.mode.Store(0)
 	switch st.action {
 	case actKeFail:
 		m := st.arg % 6
 		if m == 0 {
 			x.keFail.Store(true) // the client refuses the server's certificate
 		} else {
-			e.front.mode.Store(m) // the peer misbehaves
-			e.front.arg.Store(st.arg / 6)
+			x.front.mode.Store(m) // the peer misbehaves
+			x.front.arg.Store(st.arg / 6)
 		}
 	case actKeBadSrv:
-		e.front.mode.Store(6)
+		x.front.mode.Store(6)
 	}
-	defer e.front.mode.Store(0)
+	defer x.front.mode.Store(0)
 	timeout := waitLong
 	if st.action == actTimeout {
 		// the only wall-clock allowance: long enough for the request to leave even on a loaded
@@ -439,7 +482,17 @@ func (e *env) runStep(x *cl, st step, old *[][]byte) stepObs {
 	defer cancel()
 	done := make(chan error, 1)
 	go func() {
-		_, _, err := client.MeasureClockOffsetIP(ctx, e.log, x.c, x.local, x.remote)
+		var err error
+		if x.scion {
+			ia := addr.IA(0x0001ff0000000112)
+			la := udp.UDPAddr{IA: ia, Host: &net.UDPAddr{IP: e.ip}}
+			ra := udp.UDPAddr{IA: ia, Host: &net.UDPAddr{IP: e.ip2, Port: scionPort}}
+			ps := []snet.Path{spath.Path{Src: ia, Dst: ia, DataplanePath: spath.Empty{},
+				NextHop: &net.UDPAddr{IP: e.ip2, Port: scionPort}}}
+			_, _, err = client.MeasureClockOffsetSCION(ctx, e.log, []*client.SCIONClient{x.sc}, la, ra, ps)
+		} else {
+			_, _, err = client.MeasureClockOffsetIP(ctx, e.log, x.c, x.local, x.remote)
+		}
 		done <- err
 	}()
 
@@ -447,12 +500,18 @@ func (e *env) runStep(x *cl, st step, old *[][]byte) stepObs {
 	var cerr error
 	finished := false
 	var caddr *net.UDPAddr
+	var rawReq []byte
+	var rawReplies [][]byte
 	for !o.sent && !finished {
-		e.down.SetReadDeadline(time.Now().Add(20 * time.Millisecond))
-		n, a, err := e.down.ReadFromUDP(buf)
+		x.sock.SetReadDeadline(time.Now().Add(20 * time.Millisecond))
+		n, a, err := x.sock.ReadFromUDP(buf)
 		if err == nil {
 			o.sent = true
-			o.req = append([]byte(nil), buf[:n]...)
+			rawReq = append([]byte(nil), buf[:n]...)
+			o.req = rawReq
+			if x.scion {
+				o.req, _ = unwrapSCION(rawReq) // the NTP/NTS payload of the SCION/UDP packet
+			}
 			caddr = a
 			break
 		}
@@ -463,7 +522,7 @@ func (e *env) runStep(x *cl, st step, old *[][]byte) stepObs {
 		}
 	}
 	if o.sent {
-		d := x.c.Auth.NTSKEFetcher.VerifData() // keys of this exchange (the pool is read again afterwards)
+		d := x.fetcher.VerifData() // keys of this exchange (the pool is read again afterwards)
 		if pos, nonce, _, ok := authParts(o.req); ok {
 			o.reqNonce = nonce
 			o.reqCT = sivSeal(d.C2sKey, nonce, nil, o.req[:pos])
@@ -481,14 +540,28 @@ func (e *env) runStep(x *cl, st step, old *[][]byte) stepObs {
 		if act == actReplay && len(*old) == 0 {
 			act = actDropReply
 		}
+		if x.scion && (act == actTamper || act == actReplay || act == actForge) {
+			act = actDropReply // these act on the NTS payload only; under SPAO they never reach the NTS code
+		}
+		forward := func() {
+			if x.scion {
+				raws, pls := e.toServerSCIONRaw(rawReq)
+				rawReplies = append(rawReplies, raws...)
+				o.replies = append(o.replies, pls...)
+			} else {
+				r := e.toServer(rawReq)
+				rawReplies = append(rawReplies, r...)
+				o.replies = append(o.replies, r...)
+			}
+		}
 		switch act {
 		case actDeliver, actDropReply, actTamper, actReplay, actForge:
 			o.forwarded = 1
-			o.replies = e.toServer(o.req)
+			forward()
 		case actDupReq:
 			o.forwarded = 2
-			o.replies = e.toServer(o.req)
-			o.replies = append(o.replies, e.toServer(o.req)...)
+			forward()
+			forward()
 		}
 		o.curKey = -1
 		if len(o.replies) > 0 {
@@ -519,7 +592,7 @@ func (e *env) runStep(x *cl, st step, old *[][]byte) stepObs {
 		switch act {
 		case actDeliver, actDupReq:
 			if len(o.replies) > 0 {
-				o.delivered = o.replies[0]
+				o.delivered = rawReplies[0]
 				o.intact = true
 			}
 		case actForge:
@@ -539,7 +612,7 @@ func (e *env) runStep(x *cl, st step, old *[][]byte) stepObs {
 				g := make([]byte, 32)
 				rand.Read(g)
 				f = append(f, g...)
-				e.down.WriteToUDP(f, caddr)
+				x.sock.WriteToUDP(f, caddr)
 				o.delivered = r
 				o.intact = true
 			}
@@ -570,13 +643,13 @@ func (e *env) runStep(x *cl, st step, old *[][]byte) stepObs {
 			*old = append(*old, o.replies[0])
 		}
 		if o.delivered != nil {
-			e.down.WriteToUDP(o.delivered, caddr)
+			x.sock.WriteToUDP(o.delivered, caddr)
 		}
 		if act != actTimeout {
 			// end the client's wait whatever it thinks of what it got: it gives up after the
 			// second datagram it cannot use; a reply delivered before these is processed first
-			e.down.WriteToUDP(junk(), caddr)
-			e.down.WriteToUDP(junk(), caddr)
+			x.sock.WriteToUDP(x.junk(), caddr)
+			x.sock.WriteToUDP(x.junk(), caddr)
 		}
 		select {
 		case cerr = <-done:
@@ -585,7 +658,7 @@ func (e *env) runStep(x *cl, st step, old *[][]byte) stepObs {
 		}
 	}
 	o.clientErr = cerr != nil
-	d := x.c.Auth.NTSKEFetcher.VerifData()
+	d := x.fetcher.VerifData()
 	// a key exchange completed iff the fetcher holds new session keys
 	if len(d.C2sKey) > 0 && !bytes.Equal(d.C2sKey, d0.C2sKey) {
 		o.keDelta = 1
@@ -646,8 +719,8 @@ func scriptString(s []step) string {
 	return lib.L(it...)
 }
 
-func (e *env) runHist(script []step) (tagstr, args, outstr string) {
-	x := e.newClient()
+func (e *env) runHist(script []step, overSCION bool) (tagstr, args, outstr string) {
+	x := e.newClient(overSCION)
 	var old [][]byte
 	outs := make([]string, len(script))
 	tags := map[string]bool{}
@@ -740,7 +813,9 @@ func childMain() {
 			var t, a, o string
 			switch kind {
 			case "c11.hist":
-				t, a, o = e.runHist(parseScript(args))
+				t, a, o = e.runHist(parseScript(args), false)
+			case "c11.shist":
+				t, a, o = e.runHist(parseScript(args), true)
 			case "c11.srv":
 				t, a, o = e.runSrv(args)
 			}
@@ -832,7 +907,7 @@ func main() {
 		var scripts []job
 		for _, l := range lib.ReplayLines(a.Replay) {
 			switch l[0] {
-			case "c11.hist", "c11.srv":
+			case "c11.hist", "c11.shist", "c11.srv":
 				scripts = append(scripts, job{l[0], l[2]})
 			case "c11.store":
 				runStore(w, parseBL(l[2]), l[1])
@@ -852,5 +927,8 @@ func main() {
 	genFunctional(w, r.Fork(), a.Tier)
 	js := genSrv(r.Fork(), a.Tier)
 	js = append(js, histJobs(genHistories(r.Fork(), a.Tier))...)
+	for _, sc := range genSCIONHistories(r.Fork(), a.Tier) {
+		js = append(js, job{"c11.shist", scriptString(sc)})
+	}
 	runHistories(w, js)
 }
